@@ -85,8 +85,35 @@ def run(rep: vk.Report):
     binary_bad = []
     relaxed_diffs = 0
     relaxed_cmp = 0
-    for dom, rname, linear, m, strict in itertools.product(["integer", "binary"], list(routes("integer")),
-                                                           [True, False], METHODS, [True, False]):
+    ok = lambda call: stubs.mres(x=np.ones(len(call["x0"])), fun=1.0)
+
+    def observe(P, m, strict, where):
+        """One solve under stubs: what the caller sees (exception with names / warning with names / solver reached)."""
+        with stubs.Seams(minimize_script=[ok, ok]) as S, warnings.catch_warnings(record=True) as wlog:
+            warnings.simplefilter("always")
+            try:
+                P.solve(method=m, strict=strict)
+                names = []
+                for w in wlog:
+                    mm = re.search(r"Variables \[(.*?)\] have integer/binary domains", str(w.message))
+                    if mm:
+                        names = [s_.strip() for s_ in mm.group(1).split(", ")] if mm.group(1) else []
+                ncalls = len(S.minimize_calls) + len(S.linprog_calls)
+                if ncalls == 0:
+                    return "PyNoVariables"
+                return f"(PyRan {ser.lst(ser.s(n) for n in names)} {'true' if S.linprog_calls else 'false'})"
+            except IntegerVariableError as ex:
+                ncalls = len(S.minimize_calls) + len(S.linprog_calls)
+                if ncalls:
+                    rep.violation({"kind": "order", "obligation": "strict raises before any solver runs", "where": where,
+                                   "method": m, "calls": ncalls}, concrete=True)
+                return f"(PyInteger {ser.lst(ser.s(n) for n in (ex.variable_names or []))})"
+            except NonLinearError:
+                return "PyNonLinear"
+            except NoObjectiveError:
+                return "PyNoObjective"
+
+    def build(dom, rname, linear):
         elems, vec, scal = routes(dom)[rname]
         c = Variable("c_cont", lb=0, ub=5)
         if scal is not None:
@@ -95,42 +122,43 @@ def run(rep: vk.Report):
             body = vec.sum() + c if linear else (vec ** 2).sum() + c
         P = Problem().minimize(body)
         P.subject_to(c >= 1)
-        for v in elems:
-            if v.domain == "binary" and (v.lb, v.ub) != (0.0, 1.0):
-                binary_bad.append((rname, v.name, v.lb, v.ub))
+        return P, elems
+
+    def add_case(P, m, strict, seen, meta, kinds):
         V = [v.name for v in P.variables]
         doms = {v.name: v.domain for v in P.variables}
         is_lp = P._is_linear_problem()
         auto_nlp = P._auto_select_method()
-        ok = lambda call: stubs.mres(x=np.ones(len(call["x0"])), fun=1.0)
-        with stubs.Seams(minimize_script=[ok, ok]) as S, warnings.catch_warnings(record=True) as wlog:
-            warnings.simplefilter("always")
-            try:
-                sol = P.solve(method=m, strict=strict)
-                names = []
-                for w in wlog:
-                    mm = re.search(r"Variables \[(.*?)\] have integer/binary domains", str(w.message))
-                    if mm:
-                        names = [s.strip() for s in mm.group(1).split(", ")] if mm.group(1) else []
-                ncalls = len(S.minimize_calls) + len(S.linprog_calls)
-                if ncalls == 0:
-                    seen = "PyNoVariables"
-                else:
-                    seen = f"(PyRan {ser.lst(ser.s(n) for n in names)} {'true' if S.linprog_calls else 'false'})"
-            except IntegerVariableError as ex:
-                ncalls = len(S.minimize_calls) + len(S.linprog_calls)
-                seen = f"(PyInteger {ser.lst(ser.s(n) for n in (ex.variable_names or []))})"
-                if ncalls:
-                    rep.violation({"kind": "order", "obligation": "strict raises before any solver runs", "route": rname,
-                                   "method": m, "calls": ncalls}, concrete=True)
-            except NonLinearError:
-                seen = "PyNonLinear"
-            except NoObjectiveError:
-                seen = "PyNoObjective"
         term = (f"({'true' if is_lp else 'false'}, {ser.s(auto_nlp)}, {ser.lst('(' + ser.s(k) + ', ' + ser.s(d) + ')' for k, d in doms.items())}, "
                 f"{ser.lst(ser.s(n) for n in V)}, {ser.s(m)}, {'true' if strict else 'false'}, {seen})")
-        cases.add(term, {"domain": dom, "route": rname, "linear": linear, "method": m, "strict": strict, "seen": seen},
-                  kinds={dom, rname, str(linear), m, str(strict)})
+        cases.add(term, dict(meta, seen=seen), kinds=kinds)
+
+    for dom, rname, linear, m, strict in itertools.product(["integer", "binary"], list(routes("integer")),
+                                                           [True, False], METHODS, [True, False]):
+        P, elems = build(dom, rname, linear)
+        for v in elems:
+            if v.domain == "binary" and (v.lb, v.ub) != (0.0, 1.0):
+                binary_bad.append((rname, v.name, v.lb, v.ub))
+        seen = observe(P, m, strict, rname)
+        add_case(P, m, strict, seen, {"domain": dom, "route": rname, "linear": linear, "method": m, "strict": strict, "history": []},
+                 {dom, rname, str(linear), m, str(strict)})
+    # strict / the warning are per CALL, not per problem: the same Problem solved repeatedly with changing flags and methods;
+    # every solve of the history is compared with the model's answer for that call alone
+    hist_routes = ["scalar", "vector", "reversed_slice", "matrix_col", "symmetric_col"]
+    flag_seqs = [(False, True), (False, False, True), (True, False), (False, True, False)]
+    meth_seqs = [("auto",), ("linprog",), ("highs-ds", "auto"), ("SLSQP",), ("auto", "SLSQP"), ("trust-constr", "linprog")]
+    n_hist = 0
+    for dom, rname, linear, flags, meths in itertools.product(["integer", "binary"], hist_routes, [True, False], flag_seqs, meth_seqs):
+        P, elems = build(dom, rname, linear)
+        hist = []
+        for k, strict in enumerate(flags):
+            m = meths[k % len(meths)]
+            seen = observe(P, m, strict, rname)
+            hist.append([m, strict])
+            if k > 0:
+                n_hist += 1
+                add_case(P, m, strict, seen, {"domain": dom, "route": rname, "linear": linear, "method": m, "strict": strict,
+                                              "history": list(hist)}, {dom, rname, str(linear), m, str(strict), "history"})
     fails = cases.run(shard=400)
     for i in fails[:30]:
         meta = cases.meta[i]
@@ -170,8 +198,11 @@ def run(rep: vk.Report):
     cov["distinct_nontrivial"] = cases.nontrivial
     cov["exhaustive"] = True
     cov["rule"] = ("exhaustive product 2 domains x 12 declaration routes x {linear, non-linear} x 13 methods x {strict, not}: "
-                   "every combination is one distinct case; plus non-strict vs relaxed comparisons with real solvers")
+                   "every combination is one distinct case; plus histories on one Problem (2-3 solves with changing strict flag and method over "
+                   "5 routes x 4 flag sequences x 6 method sequences), every later solve compared with the model's answer for that call; "
+                   "plus non-strict vs relaxed comparisons with real solvers")
     cov["samples"] = [c[:400] for c in cases.terms[:3]]
+    cov["history_cases"] = n_hist
     cov["binary_bounds_violations"] = len(binary_bad)
     cov["relaxation_comparisons"] = relaxed_cmp
     cov["correspondence_failures"] = len(fails)
